@@ -785,6 +785,8 @@ MUTANTS = [
     M('log-v-live-pairs-all-rows', S,
       "            log_l = np.concatenate(\n                [ll[s:] for ll, s in zip(self.log_l, start)])\n            log_v = np.repeat(\n                self.shell_log_v - np.log(np.maximum(self.shell_n, 1)),\n                self.shell_n)\n            log_v_live",
       "            log_l = np.concatenate(self.log_l)\n            log_v = np.repeat(\n                self.shell_log_v - np.log(np.maximum(self.shell_n, 1)),\n                self.shell_n)\n            log_v_live", 'C02 C12'),
+    M('fixed-value-sized-from-first-column', PR, "np.ones(phys_points.shape[:-1]) * dist",
+      "np.ones(phys_points[..., 0].shape) * dist", 'C15'),
     M('job-returns-the-caller', N,
       "        bound.sample(n_points=n_points, return_points=False)\n        return bound\n",
       "        bound.sample(n_points=n_points, return_points=False)\n        return self\n", 'C08 C03'),
@@ -824,6 +826,8 @@ BENIGN = [
     M('run-argument-typeerror', S,
       "        if not isinstance(discard_exploration, bool):\n            raise ValueError(\"'discard_exploration' must be a bool.\")\n\n        t_start = time()",
       "        if not isinstance(discard_exploration, bool):\n            raise TypeError(\"'discard_exploration' must be a bool.\")\n\n        t_start = time()", ALL),
+    M('fixed-value-np-full', PR, "np.ones(phys_points.shape[:-1]) * dist",
+      "np.full(phys_points.shape[:-1], dist, dtype=float)", ALL),
     M('job-copy-renamed', N,
       "        bound = copy.deepcopy(self)\n        bound.reset(rng=rng)\n"
       "        bound.sample(n_points=n_points, return_points=False)\n        return bound\n",
